@@ -54,6 +54,7 @@ class LetFiller(Visitor):
         macros = [self.visit(macro) for macro in circuit.macros.values()]
         sexpr = [
             "circuit",
+            *circuit.usepulses,
             *circuit.constants.values(),
             *registers,
             *macros,
